@@ -99,50 +99,92 @@ def bits_rules(facts, rep):
     return ok
 
 
+def bound_atom(a):
+    """parse a decision atom that bounds a value by constants: returns (var, lo, hi) -- the set described when the atom is TRUE"""
+    m = re.match(r"^RangeInclusive::contains\(RangeInclusive::new\((\d+), (\d+)\), (.+)\)$", a)
+    if m:
+        return (m.group(3), int(m.group(1)), int(m.group(2)))
+    m = re.match(r"^(Le|Lt|Ge|Gt)\((.+), (\d+)\)$", a)
+    if m:
+        op, var, c = m.group(1), m.group(2), int(m.group(3))
+    else:
+        m = re.match(r"^(Le|Lt|Ge|Gt)\((\d+), (.+)\)$", a)
+        if not m:
+            return None
+        op, var, c = {"Le": "Ge", "Lt": "Gt", "Ge": "Le", "Gt": "Lt"}[m.group(1)], m.group(3), int(m.group(2))
+    return {"Le": (var, None, c), "Lt": (var, None, c - 1), "Ge": (var, c, None), "Gt": (var, c + 1, None)}[op]
+
+
+def path_bounds(p):
+    """(accepted, rejected, other): per variable the intersection of the bounds that held on this path, the bound atoms that failed,
+    and decisions that are not constant bounds"""
+    acc, rej, other = {}, [], []
+    for a, v in p["decisions"]:
+        if a == "#iter":
+            continue
+        ba = bound_atom(a)
+        if ba is None or v not in (0, 1):
+            other.append((a, v))
+            continue
+        var, lo, hi = ba
+        if v == 1:
+            l0, h0 = acc.get(var, (None, None))
+            acc[var] = (lo if l0 is None else l0 if lo is None else max(lo, l0), hi if h0 is None else h0 if hi is None else min(hi, h0))
+        else:
+            rej.append(ba)
+    return acc, rej, other
+
+
 def range_rules(facts, rep):
     rule = "C18-RANGE"
     ok = True
     f = facts.one(r"^types::DateTime::from_date_and_time$")
     ps = paths(f)
     rep.count("ctor_paths", len(ps))
-    oks = [p for p in ps if outcome(p)[0] == "Ok"]
-    good = len(oks) == 1
     DOC = {"year": (1980, 2107), "month": (1, 12), "day": (1, 31), "hour": (None, 23), "minute": (None, 59), "second": (None, 60)}
+    oks = [p for p in ps if outcome(p)[0] == "Ok"]
+    good = bool(oks)
     seen = {}
-    if good:
-        for a, v in oks[0]["decisions"]:
-            m = re.match(r"RangeInclusive::contains\(RangeInclusive::new\((\d+), (\d+)\), (\w+)\)", a)
-            if m and v == 1:
-                seen[m.group(3)] = (int(m.group(1)), int(m.group(2)))
-            m = re.match(r"Le\((\w+), (\d+)\)", a)
-            if m and v == 1:
-                seen[m.group(1)] = (None, int(m.group(2)))
-            m = re.match(r"Lt\((\w+), (\d+)\)", a)
-            if m and v == 1:
-                seen[m.group(1)] = (None, int(m.group(2)) - 1)
-        o = outcome(oks[0])
+    for p in oks:
+        seen, rej, other = path_bounds(p)
+        o = outcome(p)
         flds = dict(o[1][3]) if o[1] and o[1][0] == "agg" else {}
-        good = seen == DOC and all(flds.get(k) is not None and flds[k][0] == "arg" and flds[k][2] == k for k in DOC)
+        good = good and seen == DOC and not rej and not other and all(flds.get(k) is not None and flds[k][0] == "arg" and flds[k][2] == k for k in DOC)
+        if not good:
+            break
     ok &= rep.check(good, rule, "constructor-ranges", where(f, f.span), "Ok iff year 1980..=2107, month 1..=12, day 1..=31, hour <= 23, minute <= 59, second <= 60; fields stored unchanged",
                     "from_date_and_time accepts %s; documented ranges are %s" % (seen, DOC))
+    # every rejection is caused by a field outside its DOCUMENTED bound; every field can reject; nothing else is consulted
     errs = [p for p in ps if outcome(p)[0] == "Err"]
-    good = len(errs) == 6 and all(not p["effects"] or all(e[1].endswith("contains") for e in p["effects"]) for p in errs)
-    ok &= rep.check(good, rule, "one-rejection-per-field", where(f, f.span), "each field out of range => Err(())", "the constructor has %d rejecting paths (expected one per field)" % len(errs))
+    rejecting = set()
+    good = len(errs) >= 6 and len(errs) + len(oks) == len(ps)
+    for p in errs:
+        acc, rej, other = path_bounds(p)
+        real = [(v, lo, hi) for v, lo, hi in rej if v in DOC and lo in (None, DOC[v][0]) and hi in (None, DOC[v][1])]
+        good = good and bool(real) and len(real) == len(rej) and not other and all(e[1].endswith("contains") or e[1].endswith("RangeInclusive::<Idx>::new") for e in p["effects"])
+        rejecting |= {v for v, _, _ in real}
+    good = good and rejecting == set(DOC)
+    ok &= rep.check(good, rule, "one-rejection-per-field", where(f, f.span), "each field out of its documented range => Err(()), and nothing else rejects",
+                    "the constructor's %d rejecting paths are not exactly 'some field is outside its documented range' (fields that can reject: %s)" % (len(errs), sorted(rejecting)))
     # TryFrom<OffsetDateTime>: the year guard is on the value that is stored
     tf = facts.find(r"^<types::DateTime as std::convert::TryFrom<time::OffsetDateTime>>::try_from$")
     if tf:
         t = tf[0]
         pst = paths(t)
         okp = [p for p in pst if outcome(p)[0] == "Ok"]
-        good = len(okp) == 1
-        if good:
-            d = dict(okp[0]["decisions"])
-            o = outcome(okp[0])
+        good = bool(okp)
+        for p in okp:
+            acc, rej, other = path_bounds(p)
+            o = outcome(p)
             flds = dict(o[1][3])
             ysrc = show(_strip(flds["year"]))
-            good = d.get("Ge(%s, 1980)" % ysrc) == 1 and d.get("Le(%s, 2107)" % ysrc) == 1 and len(d) == 2 and ysrc == "OffsetDateTime::year(dt)"
-            for k, acc in (("month", "month"), ("day", "day"), ("hour", "hour"), ("minute", "minute"), ("second", "second")):
-                good = good and ("OffsetDateTime::%s(dt)" % acc) in show(flds[k])
+            good = good and acc == {ysrc: (1980, 2107)} and not rej and not other and ysrc == "OffsetDateTime::year(dt)"
+            for k, acc_ in (("month", "month"), ("day", "day"), ("hour", "hour"), ("minute", "minute"), ("second", "second")):
+                good = good and ("OffsetDateTime::%s(dt)" % acc_) in show(flds[k])
+        for p in pst:
+            if outcome(p)[0] != "Ok":
+                acc, rej, other = path_bounds(p)
+                good = good and outcome(p)[0] == "Err" and bool(rej) and not other and all(v == "OffsetDateTime::year(dt)" and lo in (None, 1980) and hi in (None, 2107) for v, lo, hi in rej)
         ok &= rep.check(good, rule, "try_from-year-guard", where(t, t.span), "Ok iff 1980 <= dt.year() <= 2107, tested on the very value stored; other fields from the same dt",
                         "TryFrom<OffsetDateTime> guards %s but stores year = %s -- the guard must be on the stored calendar year (offset-local), or impossible years get in" % (
                             [a for a, v in okp[0]["decisions"]] if okp else "?", show(dict(outcome(okp[0])[1][3])["year"]) if okp else "?"))
@@ -173,6 +215,15 @@ def inv_year_rules(facts, rep):
                 r2 = Intervals({}, fs).range_of(src, "i32")
                 if 1980 <= r2[0] and r2[1] <= 2107:
                     good = True
+            if not good:
+                # path-sensitive: on every path that reaches this construction the year was bounded by constant tests
+                try:
+                    through = [p for p in paths(f) if bi in p["blocks"]]
+                except Exception:
+                    through = []
+                names = {show(y), show(_strip(y))}
+                good = bool(through) and all(any(v in names and lo is not None and hi is not None and 1980 <= lo and hi <= 2107
+                                                 for v, (lo, hi) in path_bounds(p)[0].items()) for p in through)
             ok &= rep.check(good, rule, "year-in-range@%s" % f.path.split("::")[-1], where(f, s["span"]), "constructed with year in [1980, 2107] (%s)" % show(y)[:50],
                             "DateTime constructed with year = %s, not provably within 1980..=2107: datepart()'s `year - 1980` can then overflow (panic) "
                             "and the value does not fit the 7-bit DOS year" % show(y))
@@ -190,10 +241,15 @@ def cal_rules(facts, rep):
     if not tt:
         return True
     f = tt[0]
-    bad = [t["callee"] for _, t in f.calls() if callee_matches(t, r"::(unwrap|expect)$|^core::panicking")]
-    props = [t for _, t in f.calls() if callee_matches(t, r"Try::branch$")]
-    return rep.check(not bad and len(props) >= 3, rule, "to_time-propagates", where(f, f.span), "Month::try_from / Date::from_calendar_date / Time::from_hms errors propagated with ?",
-                     "to_time() can panic or drops a constructor error: %s" % bad)
+    bad = [t["callee"] for _, t in f.calls() if callee_matches(t, r"::(unwrap|expect|unwrap_or|unwrap_or_else|unwrap_or_default|ok)$|^core::panicking")]
+    CTORS = r"(TryFrom::try_from\(|Date::from_calendar_date\(|Time::from_hms\()"
+    have = {m for m in ("try_from", "from_calendar_date", "from_hms") if calls_matching(f, m + "$")}
+    ps = paths(f)
+    failed = [p for p in ps if any(v == 1 and re.search(r"^discr\(.*" + CTORS, a) for a, v in p["decisions"])]
+    good = not bad and len(have) == 3 and len(failed) >= 3 and all(outcome(p)[0] in ("Err", "ErrProp") for p in failed) \
+        and all(outcome(p)[0] in ("Ok", "Err", "ErrProp") for p in ps)
+    return rep.check(good, rule, "to_time-propagates", where(f, f.span), "Month::try_from / Date::from_calendar_date / Time::from_hms errors are all returned to the caller",
+                     "to_time() can panic or drops a constructor error: %s (failing-constructor paths: %s)" % (bad, [outcome(p)[0] for p in failed]))
 
 
 def run(ctx, rep):
